@@ -80,7 +80,7 @@ CHECKS = {
          'Trusted: the reference model of module state in internal/c14; import cycles are not generated.',
          'E4 histbfs + E5 enum', '4 C14'),
  'C12': ('exploration', 'bounded-exhaustive enumeration of every OS-touching function/method (discovered from the live modules) x argument tuples x execution contexts x ways of supplying the OS, against a recording OS; real-process effects checked after every case',
-         'Every function of the os, filepath and fmt modules, the OS-touching builtins and every file-object method (80 discovered names; an unknown name is an engine error) x 168 argument tuples whose paths and variable names carry a marker x 12 execution contexts (thorough 252: spawn, go, clone, imported module, callbacks, risor.Call, composed chains) x OS supplied by option / context / both; plus 81 reused-VM contexts (OS of the first run x where the second run's OS comes from x entry form RunCode/Eval/Call on the same VM and context). Oracle: the recording OS logged exactly the expected calls and the script saw its answers; cwd, environment, temp dir, / and real stdio of the worker are untouched; a static scan of the anchored files finds no direct os/syscall use; thorough: no syscall argument under strace carries the marker.',
+         'Every function of the os, filepath and fmt modules, the OS-touching builtins and every file-object method (80 discovered names; an unknown name is an engine error) x 168 argument tuples whose paths and variable names carry a marker x 12 execution contexts (thorough 252: spawn, go, clone, imported module, callbacks, risor.Call, composed chains) x OS supplied by option / context / both; plus 81 reused-VM contexts (OS of the first run x the source of the OS of the second run x entry form RunCode/Eval/Call on the same VM and context). Oracle: the recording OS logged exactly the expected calls and the script saw its answers; cwd, environment, temp dir, / and real stdio of the worker are untouched; a static scan of the anchored files finds no direct os/syscall use; thorough: no syscall argument under strace carries the marker.',
          'Trusted: the call templates (expected OS-call logs) in internal/c12/cases.go. exec, network modules and the importer\'s own file reads are exempt by the statement; os.exit(non-zero) inside go-statement contexts is excluded (it would block the harness).',
          'E5 enum + E7 crashbox', '4 C12'),
  'C13': ('exploration', 'bounded-exhaustive enumeration of path strings x operations x layouts against a component-wise containment oracle',
